@@ -446,6 +446,11 @@ class ThreadPoolServer(Server):
                 # put back the connection to active queue in doubt and raise the exception to the upper level
                 self._active_connection_queue.put(fd)
                 raise
+            except BaseException:
+                # SystemExit / KeyboardInterrupt rebuilt from the peer's exception record (a nested request answered
+                # with such an exception) must not end the worker thread: close that connection only
+                self._drop_connection(fd)
+                return
         # we've processed the maximum number of requests. Put back the connection in the active queue
         self._active_connection_queue.put(fd)
 
